@@ -161,9 +161,11 @@ class User:
         return perm
 
     def __repr__(self):
+        # (the text of an object ends up in logs and tracebacks: no password)
+        password = None if self.password is None else "***"
         return (
             f"{self.__class__.__name__}({self.login!r}, "
-            f"{self.password!r}, base_path={self.base_path!r}, "
+            f"{password!r}, base_path={self.base_path!r}, "
             f"home_path={self.home_path!r}, "
             f"permissions={self.permissions!r}, "
             f"maximum_connections={self.maximum_connections!r}, "
